@@ -75,8 +75,12 @@ func isBlank(b []byte) bool {
 // the part lying on the line where the preceding token ends and the part lying
 // on the line where the following token starts may be removed if that line is
 // removable. The shebang line is a token that covers its whole line.
-func newModel(src []byte, partials map[string][]byte) (*model, error) {
-	ps, err := tmpltok.Tokenize(src)
+func newModel(src []byte, partials map[string][]byte, html bool) (*model, error) {
+	tokenize := tmpltok.Tokenize
+	if html {
+		tokenize = tmpltok.TokenizeHTML // CDATA sections are literal text
+	}
+	ps, err := tokenize(src)
 	if err != nil {
 		return nil, err
 	}
